@@ -241,7 +241,7 @@ func ruleCode128State(c *Ctx) {
 			}
 			for _, ret := range returnsOf(fn) {
 				if k, ok := ret.Results[0].(*ssa.Const); ok && k.Value != nil && k.Value.String() == "false" {
-					if loopHdr != nil && loopHdr.Succs[0].Dominates(ret.Block()) {
+					if loopHdr != nil && inLoopBody(loopHdr, ret.Block()) {
 						rc := n.ReachCond(fn, loopHdr.Succs[0], ret.Block())
 						if !hasOpaque(rc) {
 							rejects = cOr(rejects, rc)
@@ -301,11 +301,23 @@ func ruleCode39Assembly(c *Ctx) {
 				}
 			}
 		}
-		if hdr == nil || rphi == nil || runeV == nil {
+		// the result may be accumulated in a strings.Builder instead of a string variable
+		var bld *ssa.Alloc
+		if rphi == nil {
+			eachInstr(fn, func(b *ssa.BasicBlock, ins ssa.Instruction) {
+				if a, ok := ins.(*ssa.Alloc); ok && namedTypeName(a.Type().Underlying().(*types.Pointer).Elem()) == "strings.Builder" {
+					bld = a
+				}
+			})
+		}
+		if hdr == nil || (rphi == nil && bld == nil) || runeV == nil {
 			c.Undecided(R, pk+".prepare/loop", fn.Pos(), "accumulation loop over the runes not found")
 			continue
 		}
-		n.Bind[rphi], n.Bind[runeV] = "acc", "r"
+		if rphi != nil {
+			n.Bind[rphi] = "acc"
+		}
+		n.Bind[runeV] = "r"
 		projectOK(n, fn, hdr.Succs[0], hdr.Succs[0])
 		body := hdr.Succs[0]
 		for _, ret := range returnsOf(fn) {
@@ -314,7 +326,61 @@ func ruleCode39Assembly(c *Ctx) {
 			}
 		}
 		var allCases []valCase
-		for ei, e := range rphi.Edges {
+		if bld != nil {
+			// every write appends to what was written before: one alternative "acc + x" per write site;
+			// the builder is used for nothing else, no path of one iteration writes twice, and the
+			// function returns its contents
+			var writes []*ssa.Call
+			okUse := true
+			why := ""
+			for _, r := range *bld.Referrers() {
+				call, isCall := r.(*ssa.Call)
+				if !isCall || len(call.Common().Args) == 0 || call.Common().Args[0] != ssa.Value(bld) {
+					if _, dbg := r.(*ssa.DebugRef); !dbg {
+						okUse, why = false, "builder used other than as a method receiver"
+					}
+					continue
+				}
+				switch calleeFull(call) {
+				case "(*strings.Builder).WriteString", "(*strings.Builder).WriteRune", "(*strings.Builder).WriteByte":
+					writes = append(writes, call)
+				case "(*strings.Builder).String", "(*strings.Builder).Len", "(*strings.Builder).Grow":
+				default:
+					okUse, why = false, calleeFull(call)
+				}
+			}
+			for _, w := range writes {
+				if !hdr.Dominates(w.Block()) || !hdr.Succs[0].Dominates(w.Block()) {
+					okUse, why = false, "write outside the rune loop"
+				}
+				for _, w2 := range writes {
+					if w != w2 {
+						if eq, _ := CondEquivalent(n.ReachCond(fn, w.Block(), w2.Block()), cFalse); !eq || w.Block() == w2.Block() {
+							okUse, why = false, "two writes on one path of an iteration"
+						}
+					}
+				}
+				arg := n.Norm(w.Common().Args[1]).asAtom()
+				if calleeFull(w) != "(*strings.Builder).WriteString" {
+					arg = "Conv:string(" + arg + ")"
+				}
+				allCases = append(allCases, valCase{pAtom("Cat(acc," + arg + ")"), n.ReachCond(fn, body, w.Block())})
+			}
+			for _, ret := range returnsOf(fn) {
+				if isNilConst(ret.Results[1]) {
+					sc, isCall := ret.Results[0].(*ssa.Call)
+					if !isCall || calleeFull(sc) != "(*strings.Builder).String" || sc.Common().Args[0] != ssa.Value(bld) {
+						okUse, why = false, "success return is not the builder's contents"
+					}
+				}
+			}
+			c.Check(R, pk+".prepare/builder", bld.Pos(), okUse, "a strings.Builder that is only appended to in the rune loop (one write per rune) and whose contents are returned", orOK(why))
+		}
+		var backEdges []ssa.Value
+		if rphi != nil {
+			backEdges = rphi.Edges
+		}
+		for ei, e := range backEdges {
 			if !hdr.Dominates(hdr.Preds[ei]) {
 				continue
 			}
@@ -354,7 +420,7 @@ func ruleCode39Assembly(c *Ctx) {
 					}
 				}
 				_ = want
-				c.Check(R, "code39.prepare/append", rphi.Pos(), okTable && okSelf && extra == "", "acc + extendedTable[r] when the table has r, acc + string(r) otherwise, nothing else", strings.Join(got, " | "))
+				c.Check(R, "code39.prepare/append", hdr.Instrs[0].Pos(), okTable && okSelf && extra == "", "acc + extendedTable[r] when the table has r, acc + string(r) otherwise, nothing else", strings.Join(got, " | "))
 			} else {
 				ok93 := len(cases) == 1 && cases[0].val.String() == "Cat(acc,global:code93.extendedTable[r])"
 
@@ -362,7 +428,7 @@ func ruleCode39Assembly(c *Ctx) {
 					eq, _ := CondEquivalent(cases[0].cond, MustRefCond("r <= 127"))
 					ok93 = eq
 				}
-				c.Check(R, "code93.prepare/append", rphi.Pos(), ok93, "acc + extendedTable[r] for every r <= 127", strings.Join(got, " | "))
+				c.Check(R, "code93.prepare/append", hdr.Instrs[0].Pos(), ok93, "acc + extendedTable[r] for every r <= 127", strings.Join(got, " | "))
 			}
 		}
 	}
